@@ -494,3 +494,46 @@ M('c10-selfadd-rest-from-3', 'C10', 'R4', U, _TRY_BA,
 M('c10-selfadd-literal-arm-drops-percent', 'C10', 'R4', U, _TRY_INLINE,
   "            try:\n                reencoded_uri = reencoded_uri + (_HEX_TO_BYTE[token_partial] + token[2:])\n            except KeyError:\n"
   "                reencoded_uri = reencoded_uri + token\n", also=('C08',))
+
+# ---------------------------------------------------------------- wave 11
+# R4 memo keys (seed s11-c10-2): decode() remembers recent answers in a module-level table; the body from the
+# re-encoding on is moved verbatim into _decode_escaped().  The answer depends on unquote_plus, the key does not:
+# decode('a+b%3Dc') then decode('a+b%3Dc', unquote_plus=False) == 'a b=c'.
+_W11_TABLE = {'file': U, 'old': "\ndef decode(encoded_uri: str, unquote_plus: bool = True) -> str:\n",
+              'new': "_DECODE_CACHE: Dict[str, str] = {}\n_DECODE_CACHE_MAX_ITEMS = 1024\n_DECODE_CACHE_MAX_LEN = 128\n\n\n"
+                     "def decode(encoded_uri: str, unquote_plus: bool = True) -> str:\n"}
+_W11_NOTE = "    # NOTE(kgriffs): Clients should never submit a URI that has\n    # unescaped non-ASCII chars in them, but just in case they\n"
+_W11_HELPER = "\n\ndef _decode_escaped(decoded_uri: str) -> str:\n" + _W11_NOTE
+M2('c10-w11-decode-memo-keyed-by-input-only', 'C10', 'R4', [_W11_TABLE, {'file': U, 'old': _W11_NOTE, 'new':
+    "    cacheable = len(encoded_uri) <= _DECODE_CACHE_MAX_LEN\n    if cacheable:\n        cached = _DECODE_CACHE.get(encoded_uri)\n"
+    "        if cached is not None:\n            return cached\n\n    decoded_uri = _decode_escaped(decoded_uri)\n\n    if cacheable:\n"
+    "        if len(_DECODE_CACHE) >= _DECODE_CACHE_MAX_ITEMS:\n            _DECODE_CACHE.clear()\n        _DECODE_CACHE[encoded_uri] = decoded_uri\n\n"
+    "    return decoded_uri\n" + _W11_HELPER}], also=('C08', 'C19'))
+# the same memo with a local for the answer and a once-bound key local
+M2('c10-w11-decode-memo-key-local-input-only', 'C10', 'R4', [_W11_TABLE, {'file': U, 'old': _W11_NOTE, 'new':
+    "    key = encoded_uri\n    cached = _DECODE_CACHE.get(key)\n    if cached is not None:\n        return cached\n\n"
+    "    result = _decode_escaped(decoded_uri)\n    _DECODE_CACHE[key] = result\n    return result\n" + _W11_HELPER}], also=('C08', 'C19'))
+# the memo is filled only by the query-string setting but read by every call: the path setting gets the '+'-replaced answer
+M2('c10-w11-decode-memo-store-guarded-read-not', 'C10', 'R4', [_W11_TABLE, {'file': U, 'old': _W11_NOTE, 'new':
+    "    cached = _DECODE_CACHE.get(encoded_uri)\n    if cached is not None:\n        return cached\n\n"
+    "    result = _decode_escaped(decoded_uri)\n    if unquote_plus:\n        _DECODE_CACHE[encoded_uri] = result\n    return result\n" + _W11_HELPER}],
+   also=('C08', 'C19'))
+
+# R5 find-loop form of the already-escaped scan (seed s11-c15-2): the slice after the % is tested with a test that is
+# also true for a shorter slice, the length requirement is gone: encode_check_escaped('/sale/100%') is returned unchanged
+_W11_SPLIT_SCAN = ("            tokens = uri.split('%')\n            for token in tokens[1:]:\n                hex_octet = token[:2]\n\n"
+                   "                if not len(hex_octet) == 2:\n                    break\n\n"
+                   "                if not (hex_octet[0] in _HEX_DIGITS and hex_octet[1] in _HEX_DIGITS):\n                    break\n")
+
+
+def _w11_find_scan(test):
+    return ("            pos = uri.find('%')\n            while pos != -1:\n" + test +
+            "                    break\n\n                pos = uri.find('%', pos + 3)\n")
+
+
+M('c10-w11-find-scan-rstrip-no-length', 'C10', 'R5', U, _W11_SPLIT_SCAN,
+  _w11_find_scan("                if uri[pos + 1 : pos + 3].rstrip(_HEX_DIGITS):\n"), also=('C15',))
+M('c10-w11-find-scan-all-no-length', 'C10', 'R5', U, _W11_SPLIT_SCAN,
+  _w11_find_scan("                if not all(c in _HEX_DIGITS for c in uri[pos + 1 : pos + 3]):\n"), also=('C15',))
+M('c10-w11-find-scan-length-wrong-way', 'C10', 'R5', U, _W11_SPLIT_SCAN,
+  _w11_find_scan("                octet = uri[pos + 1 : pos + 3]\n                if len(octet) > 2 or octet.strip(_HEX_DIGITS) != '':\n"), also=('C15',))
